@@ -3,7 +3,8 @@ component is quoted with — the constants *and* which constant each call site u
 
  * traversal.py   PATH_SEGMENT_SAFE, PATH_SAFE; `_join_path_tuple` -> quote_path_segment(x) (default `safe`)
  * url.py         QUERY_SAFE, ANCHOR_SAFE; parse_url_overrides -> url_quote(query, …), url_quote(anchor, …);
-                  _quoted_script_name -> url_quote(bscript_name, …); _join_elements -> quote_path_segment(s, safe=…)
+                  _quoted_script_name -> url_quote(bscript_name, …); _join_elements (the uncached
+                  stringifying wrapper) -> _join_text_elements -> quote_path_segment(s, safe=…)
  * urldispatch.py _compile_route -> quote_path_segment(prefix|s, safe='/') for pattern literals,
                   q(v) = quote_path_segment(v, safe=…) for placeholder values
  * encode.py      quote_plus(val, safe='') default and urlencode(…, quote_via=quote_plus); quote_via(·) is
@@ -114,7 +115,32 @@ def facts(src_root):
     site('querySafe', lambda: _safe_arg(one('parse_url_overrides', 'url_quote', 'query'), ev))
     site('anchorSafe', lambda: _safe_arg(one('parse_url_overrides', 'url_quote', 'anchor'), ev))
     site('scriptSafe', lambda: _safe_arg(one('_quoted_script_name', 'url_quote', 'bscript_name'), ev))
-    site('elementSafe', lambda: _safe_arg(one('_join_elements', 'quote_path_segment', 's'), ev))
+
+    def element_site():
+        # `_join_elements(elements)` must be the *uncached* wrapper that turns every non-str/bytes element into
+        # its text and hands the tuple to the cached `_join_text_elements`, whose body holds the quoting call;
+        # any other shape (e.g. the cache back on the raw element tuple, where True, 1 and 1.0 share an entry)
+        # is not recognised
+        w = _func(trees['url.py'], '_join_elements')
+        if w is None:
+            raise Unknown('no function _join_elements')
+        if w.decorator_list:
+            raise Unknown('_join_elements is decorated (a cache keyed on the raw elements?)')
+        body = [st for st in w.body if not (isinstance(st, ast.Expr) and isinstance(st.value, ast.Constant))]
+        want = 'return _join_text_elements(tuple([s if s.__class__ in (str, bytes) else str(s) for s in elements]))'
+        if [a.arg for a in w.args.args] != ['elements'] or len(body) != 1 or ast.unparse(body[0]) != want:
+            raise Unknown('_join_elements is not the stringifying wrapper')
+        t = _func(trees['url.py'], '_join_text_elements')
+        if t is None or [a.arg for a in t.args.args] != ['elements']:
+            raise Unknown('no function _join_text_elements(elements)')
+        tb = [st for st in t.body if not (isinstance(st, ast.Expr) and isinstance(st.value, ast.Constant))]
+        if len(tb) != 1 or not isinstance(tb[0], ast.Return):
+            raise Unknown('_join_text_elements body')
+        src = ast.unparse(tb[0])
+        if not (src.startswith("return '/'.join([quote_path_segment(s, safe=") and src.endswith(') for s in elements])')):
+            raise Unknown('_join_text_elements body')
+        return _safe_arg(one('_join_text_elements', 'quote_path_segment', 's'), ev)
+    site('elementSafe', element_site)
 
     # quote_path_segment's own default (used by _join_path_tuple for resource names)
     def qps_default():
@@ -209,7 +235,7 @@ def generate(src_root):
          '/-- false when some quoting call site did not have the expected shape (%s) -/' % ('; '.join(problems).replace('-/', '- /') or 'all recognised'),
          'def recognised : Bool := %s' % ('true' if not problems else 'false'), '']
     doc = {
-        'elementSafe': '`_join_elements`: quote_path_segment(s, safe=…)',
+        'elementSafe': '`_join_elements` → `_join_text_elements`: quote_path_segment(s, safe=…)',
         'scriptSafe': '`_quoted_script_name`: url_quote(bscript_name, …)',
         'routeLitSafe': '`_compile_route`: quote_path_segment(prefix|s, safe=…) for pattern literals',
         'routeValSafe': '`_compile_route`: q(v) = quote_path_segment(v, safe=…) for placeholder values',
